@@ -295,7 +295,25 @@ func (s *Store[H]) DeleteRange(ctx context.Context, from, to uint64) error {
 		// If it exists, we can't wipe - there's a header that would become the new tail
 		_, err := s.getByHeight(ctx, to)
 		if errors.Is(err, header.ErrNotFound) {
-			// No header at 'to', safe to wipe the entire store
+			// No header at 'to', safe to wipe the entire store:
+			// delete all the headers first and drop the head and tail pointers after
+			actualTo, _, deleteErr := s.deleteRangeRaw(ctx, from, to)
+			if deleteErr != nil {
+				// reflect the actual progress, as for any other tail-side deletion
+				if err := s.setTail(ctx, s.ds, actualTo); err != nil {
+					deleteErr = errors.Join(
+						deleteErr,
+						fmt.Errorf("header/store: setting tail to %d: %w", actualTo, err),
+					)
+				}
+				return fmt.Errorf(
+					"header/store: delete range [%d:%d) (actual: %d): %w",
+					from,
+					to,
+					actualTo,
+					deleteErr,
+				)
+			}
 			if err := s.wipe(ctx); err != nil {
 				return fmt.Errorf("header/store: wipe: %w", err)
 			}
